@@ -28,6 +28,8 @@ let show_sessions cap l =
 let show_table t = show_sessions t.t_cap t.t_list
 
 (* split on " ; " *)
+let is_e = function ("E" | "EN" | "ES") :: _ -> true | _ -> false
+
 let split_ops (s : string) : string list =
   List.filter (fun x -> String.trim x <> "")
     (List.map String.trim (Str.split (Str.regexp_string " ; ") s))
@@ -102,18 +104,23 @@ let () =
           List.iteri (fun k o ->
             if !install_due then begin install_due := false; do_install (k - 1) end;
             (match !pend with
-             | Some (_, left) when left <= 0 || (match split_ws o with "E" :: _ -> false | _ -> true) -> close_save ()
+             | Some (_, left) when left <= 0 || (not (is_e (split_ws o))) -> close_save ()
              | _ -> ());
             let w = split_ws o in
-            if !lag_left > 0 && (match w with "E" :: _ -> false | _ -> true) then
+            if List.mem "kind=disk" hdr && (match w with ("SNAP" | "SAVE" | "RESTART" | "INSTALL") :: _ -> true | _ -> false) then
+              Printf.printf "%s %d skip\n" id k
+            else
+            if !lag_left > 0 && (not (is_e w)) then
               Printf.printf "%s %d skip\n" id k
             else
             match w with
+            | ["B"] | ["B"; _] ->
+              Printf.printf "%s %d B %d\n" id k (match w with [_; x] -> int_of_string x | _ -> 1)
             | ["INSTALL"] | ["INSTALL"; _] ->
               let n = (match w with [_; x] -> int_of_string x | _ -> 1) in
               if n > 0 then begin lag_old := Some !st; lag_left := n end;
               Printf.printf "%s %d INSTALL %d\n" id k n
-            | ["E"; c; s; r; cmd] ->
+            | [("E" | "EN" | "ES"); c; s; r; cmd] ->
               let e = { e_client = n_of_string c; e_series = n_of_string s;
                         e_responded = n_of_string r; e_cmd = bytes_of_hex cmd } in
               let (st', out) = acc_step !st e in
